@@ -37,10 +37,10 @@ func pickFrom[T any](g *G, label string, xs []T) T { return xs[g.n(label, len(xs
 
 // ---- leaves ----
 
-var plainNames = []string{"a", "b", "c", "k", "x1", "_u", "Col9", "tbl", "count_", "kind", "on", "with", "where", "project", "top", "as", "join", "T", "NULL", "True", "OR", "By", "In", "AND"}
+var plainNames = []string{"a", "b", "c", "k", "x1", "_u", "Col9", "tbl", "count_", "kind", "on", "with", "where", "project", "top", "as", "join", "T", "NULL", "True", "OR", "By", "In", "AND", "__subquery1", "__subquery2", "___subquery0"}
 var quotedNames = []string{"a b", "select", "and", "by", "x`y", "", "é", "a.b", "1st", "count()", "from", "null", "true", "false", "a.b.c", ".x", "x.", "let", "$left", "$right"}
 var hostileNames = []string{`q"d`, `s'q`, `b\s`, `--c`, `/*c*/`, `a;b`, `tab	x`, "nul\x00x", "bad\xffutf", `x\`, `"`, `'`, "``", `$left`, `{p}`}
-var tableNames = []string{"T", "U", "Events", "tbl", "_t1"}
+var tableNames = []string{"T", "U", "Events", "tbl", "_t1", "__subquery0", "__subquery1"}
 
 // Builtins maps each documented built-in to its arity (-1: at least one).
 var Builtins = map[string]int{
@@ -478,7 +478,7 @@ func (g *G) Program() *Program {
 
 // ---- layouts ----
 
-var sepPool = []string{" ", " ", " ", " ", "", "", "\t", "\n", "  \n\t", "// c\n", " //;'`\"\n", "\r\n", "\u00a0", " // é ü\n"}
+var sepPool = []string{" ", " ", " ", " ", "", "", "\t", "\n", "  \n\t", "// c\n", " //;'`\"\n", "\r\n", "\u00a0", " // é ü\n", "\r", " \r ", "\v", "\f", "\u2028", "\u0085"}
 
 // Seps draws separators for n tokens (n+1 entries).
 func (g *G) Seps(n int) []string {
